@@ -244,7 +244,8 @@ def enum_ty(v, t):
             fld("sg_v", "plain", "sample_group", val("str", 5), sg=True),
             fld("inner", "flatten", "flatten", edge={"kind": "prefix", "s": "SvIn"}, child="X0"),
         ]},
-        {"ident": "UnitV", "name": None, "vk": "unit", "fields": []},
+        # an acronym and an underscore: the inflector changes such identifiers in every style
+        {"ident": "HTTPUnit_V", "name": None, "vk": "unit", "fields": []},
         {"ident": "RenamedUnit", "name": "renamed-Unit_v", "vk": "unit", "fields": []},
         {"ident": "RenamedSv", "name": "renamed_sv", "vk": "struct",
          "fields": [fld("foo_bar", "plain", "plain", val("u32", 0))]},
@@ -261,6 +262,8 @@ def strenum_ty(si):
         {"ident": "Other", "name": "Custom-X_y"},
         {"ident": "A", "name": None},
         {"ident": "Http2Get", "name": None},
+        {"ident": "HTTPError", "name": None},
+        {"ident": "Read_Data", "name": None},
     ]}
 
 
